@@ -98,6 +98,10 @@ def classify_unsat(m, red, leaves, alpha, Pplain):
     return "D12:try_reduce_before-reduced-polyhedron-admits-non-models-negative-lower-bound"
 
 
+def canon_sol(r):
+    return (sorted((str(a), int(b)) for a, b in r[0].items()), None if r[1] is None else int(r[1]), int(r[2]))
+
+
 def check_solve_flags(m, case, obj, Pref, red, leaves, safe, acc, Pplain):
     cols = list(Pref.A.variables)
     ids = [v.id for v in cols]
@@ -111,14 +115,33 @@ def check_solve_flags(m, case, obj, Pref, red, leaves, safe, acc, Pplain):
             cs = dict(case, mode=mode, virtual=virt, try_reduce_before=red)
             acc.n("traces")
             acc.n("transitions")
+            given = [dict(o) for o in OBJECTIVES]
+            kw = dict(solver=cap, include_virtual_variables=virt)
+            if red:
+                kw["try_reduce_before"] = True
             try:
-                if red:
-                    res = list(o2.solve([dict(o) for o in OBJECTIVES], solver=cap, include_virtual_variables=virt, try_reduce_before=True))
-                else:
-                    res = list(o2.solve([dict(o) for o in OBJECTIVES], solver=cap, include_virtual_variables=virt))
+                res = list(o2.solve(given, **kw))
             except BaseException as e:
                 acc.violation(None, cs, {"what": "solve raised", "exc": repr(e), "model": show(m)})
                 continue
+            if given != OBJECTIVES:
+                acc.violation(None, cs, {"what": "solve changed the caller's objective dictionaries", "after": repr(given)[:300]})
+                continue
+            if mode == "exact" and not virt:
+                # the composition of the batch: an objective alone in its call, and the empty batch, on the same object
+                try:
+                    cap1 = cfgspace.Capture("exact")
+                    alone = [list(o2.solve([dict(OBJECTIVES[oi_])], **dict(kw, solver=cap1))) for oi_ in (0, 2, 5)]
+                    none_ = list(o2.solve([], **dict(kw, solver=cfgspace.Capture("exact"))))
+                except BaseException as e:
+                    acc.violation(None, cs, {"what": "solve raised on a single objective / an empty batch", "exc": repr(e), "model": show(m)})
+                    continue
+                acc.n("transitions", 4)
+                same = all(len(a_) == 1 and canon_sol(a_[0]) == canon_sol(res[oi_]) for a_, oi_ in zip(alone, (0, 2, 5))) if len(res) == len(OBJECTIVES) else True
+                if not same or none_ != [] or [np.asarray(c_[1][0]).tolist() for c_ in cap1.calls] != [np.asarray(cap.calls[0][1][oi_]).tolist() for oi_ in (0, 2, 5)]:
+                    acc.violation(None, cs, {"what": "an objective alone in its call (or the empty batch) is answered differently from the same objective in the batch",
+                                             "model": show(m), "alone": repr(alone)[:300], "batch": repr([res[oi_] for oi_ in (0, 2, 5)])[:300], "empty_batch": repr(none_)})
+                    continue
             acc.hist("environment_answer", mode)
             if len(cap.calls) != 1:
                 acc.violation(None, cs, {"what": "solver callable not called exactly once", "calls": len(cap.calls)})
@@ -231,7 +254,12 @@ def check_select(k, tier, acc):
             acc.hist("environment_answer", mode)
             try:
                 batch = prios if mode != "raise" else prios[exc_i:exc_i + 3]      # a failing solver: three dictionaries are enough
-                res = list(cfg2.select(*[dict(p) for p in batch], solver=cap, only_leafs=only_leafs))
+                given = [dict(p) for p in batch]
+                try:
+                    res = list(cfg2.select(*given, solver=cap, only_leafs=only_leafs))
+                finally:
+                    if given != [dict(p) for p in batch]:
+                        acc.violation(None, cs, {"what": "select changed the caller's priority dictionaries", "after": repr(given)[:300]})
                 raised = None
             except pnd.InfeasibleError as e:
                 raised = "InfeasibleError"
